@@ -170,7 +170,7 @@ func C20(c *core.Ctx) error {
 	}
 
 	pool := []string{"v1.2.3", "v1.9.0", "v1.10.0", "v2.0.0", "v1", "v1.2", "foo", "v1.3.0-rc.1", "rel.1.x"}
-	versions := []string{"v1.2.2", "v1.2.3", "v1.9.1", "v1.10.1", "v2.0.0", "v3.0.0", "1.10.1", "bad", "v1.3.0", "v1.3.0-rc.1"}
+	versions := []string{"v1.2.2", "v1.2.3", "v1.9.1", "v1.10.1", "v2.0.0", "v3.0.0", "1.10.1", "bad", "v1.3.0", "v1.3.0-rc.1", "v1.2.3+build.7", "v1.10.0+20260929"}
 	trees := []string{"clean", "untracked", "modified", "staged"}
 	drys := []string{"absent", "true", "false"}
 	maxSub := 2
@@ -364,6 +364,9 @@ func C20(c *core.Ctx) error {
 		full := fmt.Sprintf("v%d.%d.%d", req.maj, req.min, req.pat)
 		if len(req.pre) > 0 {
 			full += "-" + strings.Join(req.pre, ".")
+		}
+		if i := strings.IndexByte(cs.version, '+'); i >= 0 {
+			full += cs.version[i:] // build metadata is part of the tag's name (it only never takes part in the ordering)
 		}
 		major := fmt.Sprintf("v%d", req.maj)
 		want := map[string]string{}
